@@ -243,6 +243,7 @@ type joeCanceller struct {
 }
 
 type joeWorld struct {
+	prefixBase  []string
 	wide        bool // large topic sets (wideTopics)
 	crowd       bool // dozens of subscribers at once
 	usedEmptyID bool
@@ -332,6 +333,13 @@ func (w *joeWorld) newMessage(topics []string) *pubMsg {
 func (w *joeWorld) topicsFor(label string, forMessage bool) []string {
 	if w.wide {
 		return genTopicsWide(w.ch, label, forMessage)
+	}
+	if w.ch.Chance(1, 6, label+" topics are a prefix of one shared array") {
+		// prefixes of one array kept by the caller: lists are equal by their elements, not by the memory they share
+		if w.prefixBase == nil {
+			w.prefixBase = []string{"a", sse.DefaultTopic, "b", "c"}
+		}
+		return w.prefixBase[:1+w.ch.Intn(len(w.prefixBase), label+" prefix length")]
 	}
 	return genTopics(w.ch, label)
 }
